@@ -49,13 +49,16 @@ def base(n, nan=False):
 _TIER = "quick"
 
 
+ENVONLY = ["I(yv) ~ I(xv) + np.log(xv)", "I(yv) ~ 0 + scale(xv)"]  # formulas that mention no column of the frame
+
+
 def units(tier, seed):
     fams = ["perm5", "cayley8", "index", "columns", "cayley8-nan", "index-nan"]
     pool = list(POOL)
     if tier == "thorough":
         fams += ["perm6"]
         pool = list(dict.fromkeys(pool + [f for f in c06.pool("quick") if "lv" not in f or True]))
-    return [[{"formula": f, "family": fam, "tier": tier}] for f in pool for fam in fams]
+    return [[{"formula": f, "family": fam, "tier": tier}] for f in pool for fam in fams] + [[{"formula": f, "family": fam, "tier": tier}] for f in ENVONLY for fam in ("index", "columns")]
 
 
 def expand(unit):
@@ -161,7 +164,7 @@ def check_case(case, acc):
     nan = fam.endswith("-nan")
     fam = fam.replace("-nan", "")
     D = base(n, nan)
-    probe = base(8).iloc[[6, 1, 4]].reset_index(drop=True)
+    probe = base(8).iloc[[6, 1, 4]].reset_index(drop=True) if f not in ENVONLY else base(8)  # caller arrays have 8 entries
     acc.calls += 1
     try:
         ref = snapshot(build(f, D), probe)
@@ -187,7 +190,8 @@ def check_case(case, acc):
             d2.index = pd.Index([7, 3, 11, 0, 5, 2, 9, 1][:n], name=nm)
             variants.append((f"index named {nm!r}", d2, None, True))
         d2 = D.iloc[[3, 0, 2, 1, 4, 7, 6, 5]]  # permuted rows keeping their old labels
-        variants.append(("rows [3,0,2,1,4,7,6,5] with the original labels kept", d2, [3, 0, 2, 1, 4, 7, 6, 5], False))
+        if f not in ENVONLY:
+            variants.append(("rows [3,0,2,1,4,7,6,5] with the original labels kept", d2, [3, 0, 2, 1, 4, 7, 6, 5], False))
     else:
         cols = list(D.columns)
         for p in itertools.permutations(["x", "f", "g", "y"]):
@@ -208,6 +212,12 @@ def check_case(case, acc):
                 variants.append((f"extra unused columns {list(sub)}", d2, None, True))
                 d3 = d2[list(sub) + cols]
                 variants.append((f"extra unused columns {list(sub)} first", d3, None, True))
+        # two unused columns sharing one name (e.g. after a concat)
+        d2 = pd.concat([D, D[["z", "h"]].set_axis(["junk", "junk"], axis=1)], axis=1)
+        variants.append(("two unused columns both named 'junk'", d2, None, True))
+        if f in ENVONLY:
+            variants.append(("a frame with rows but no columns at all", pd.DataFrame(index=D.index), None, True))
+            variants.append(("a frame with one unused column", D[["h"]], None, True))
         used = set("xyfg") | {c for c in cols if c in f}
         drop = [c for c in cols if c not in used and c not in f]
         if drop:
